@@ -30,6 +30,10 @@ Other documented choices:
   * A quoted symbol |x| is the same symbol as x, but a quoted symbol is ALWAYS looked up as a
     user symbol: |true| / |12| / |and| are never the constant, the numeral or the connective.
   * Only zero-arity declare-fun; define-fun may have parameters (expanded at use).
+  * Quantifiers are decided by enumeration over the same finite universes as check-sat (two
+    abstract values per uninterpreted sort); a sort that is not declared is rejected in binders
+    and in (as const (Array I E)).  Arrays: finite maps over the universe of the index sort;
+    (as const ..), select, store, =, ite.
   * declare-sort with arity n > 0: every instance (S s1 .. sn) is a distinct uninterpreted sort
     with two abstract values.  Sorts and function symbols live in separate name spaces.
 
@@ -279,7 +283,7 @@ THEORY_OPS = set(BOOL_NARY) | set(INT_CMP) | set(BV2) | set(BVCMP) | {
 BINDERS = {'let', 'forall', 'exists', 'match', '!', '_', 'as', 'par',
            'BINARY', 'DECIMAL', 'HEXADECIMAL', 'NUMERAL', 'STRING'}
 # names that can never be (re)declared and never count as free symbols when written bare
-RESERVED = THEORY_OPS | BINDERS | {'true', 'false'}
+RESERVED = THEORY_OPS | BINDERS | {'true', 'false', 'select', 'store'}
 
 
 def is_reserved(name):
@@ -342,6 +346,8 @@ def show_sort(s):
     if isinstance(s, tuple):
         if s[0] == 'BV':
             return '(_ BitVec %d)' % s[1]
+        if s[0] == 'Array':
+            return '(Array %s %s)' % (show_sort(s[1]), show_sort(s[2]))
         # an instance of a sort symbol with arguments is kept as its printed form "(Pair Int Int)"
         return s[1] if s[1].startswith('(') else _show_atom(Sym(s[1]))
     return s
@@ -354,6 +360,8 @@ def parse_sort(x, user_sorts):
         if len(x) == 3 and x[0] == '_' and x[1] == 'BitVec' and type(x[2]) is str \
                 and _NUMERAL.match(x[2]) and int(x[2]) >= 1:
             return ('BV', int(x[2]))
+        if len(x) == 3 and type(x[0]) is str and x[0] == 'Array':
+            return ('Array', parse_sort(x[1], user_sorts), parse_sort(x[2], user_sorts))
         if x and _is_symbol(x[0]) and not isinstance(x[0], Str) and x[0] in arity and arity[x[0]] > 0:
             # (S s1 ... sn): every instance is a distinct uninterpreted sort with two values
             if len(x) - 1 != arity[x[0]]:
@@ -480,7 +488,33 @@ def sort_of(t, scope, loc=None):
         if isinstance(h, list):                         # ((_ extract i j) x) ...
             if len(h) >= 3 and h[0] == '_' and type(h[1]) is str and h[1] in INDEXED:
                 return _indexed_sort(h, [sort_of(a, scope, loc) for a in t[1:]])
+            if len(h) == 3 and h[0] == 'as' and h[1] == 'const' and len(t) == 2:   # ((as const (Array I E)) v)
+                so = parse_sort(h[2], scope.get(SORTS_KEY, ()))
+                if so[0] != 'Array' or sort_of(t[1], scope, loc) != so[2]:
+                    raise SmtError("sort error: ill-sorted constant array %s" % show(t))
+                return so
             raise SmtError("unknown symbol: %s" % show(h))
+        if type(h) is str and h in ('select', 'store'):
+            ss = [sort_of(a, scope, loc) for a in t[1:]]
+            if not ss or not (isinstance(ss[0], tuple) and ss[0][0] == 'Array') or len(ss) != (2 if h == 'select' else 3) \
+                    or ss[1] != ss[0][1] or (h == 'store' and ss[2] != ss[0][2]):
+                _serr(h, ss, "expects an array, an index%s of its sorts" % ("" if h == 'select' else " and an element"))
+            return ss[0][2] if h == 'select' else ss[0]
+        if type(h) is str and h in ('forall', 'exists'):
+            if len(t) != 3 or not isinstance(t[1], list) or not t[1]:
+                raise SmtError("malformed term: %s" % h)
+            new, names = dict(loc), set()
+            for b in t[1]:
+                if not (isinstance(b, list) and len(b) == 2 and _is_symbol(b[0])) \
+                        or (type(b[0]) is str and is_reserved(b[0])):
+                    raise SmtError("malformed term: binder %s" % show(b))
+                if b[0] in names:
+                    raise SmtError("malformed term: %s binds %s twice" % (h, b[0]))
+                names.add(str(b[0]))
+                new[str(b[0])] = parse_sort(b[1], scope.get(SORTS_KEY, ()))   # undeclared sort: error
+            if sort_of(t[2], scope, new) != 'Bool':
+                raise SmtError("sort error: the body of %s is not Bool" % h)
+            return 'Bool'
         if type(h) is str and h == 'let':
             if len(t) != 3 or not isinstance(t[1], list) or not t[1]:
                 raise SmtError("malformed term: let")
@@ -509,7 +543,7 @@ def sort_of(t, scope, loc=None):
             if len(t) == 3 and t[2] in scope.get(SORTS_KEY, ()) and _abstract_index(t[1], t[2]) is not None:
                 return ('U', str(t[2]))
             raise SmtError("unsupported: %s" % show(t))
-        if type(h) is str and h in ('forall', 'exists', 'match'):
+        if type(h) is str and h == 'match':
             raise SmtError("unsupported: %s" % h)
         if isinstance(h, Str) or _is_literal(h):
             raise SmtError("malformed term: %s" % show(t))
@@ -630,8 +664,30 @@ def eval_term(t, env, loc=None):
             return eval_term(v.body, env, {}) if isinstance(v, Def) else v
         h = t[0]
         if isinstance(h, list):
+            if len(h) == 3 and h[0] == 'as' and h[1] == 'const':
+                isort = _struct_sort(h[2])[1]
+                return ("arr", isort, (eval_term(t[1], env, loc),) * len(domain(isort, EVAL_INT_RANGE[0])))
             return _apply_indexed(h, eval_term(t[1], env, loc))
         if type(h) is str:
+            if h in ('forall', 'exists') and h not in loc:
+                # quantifiers range over the finite universes of the enumeration
+                names = [str(b[0]) for b in t[1]]
+                doms = [domain(_struct_sort(b[1]), EVAL_INT_RANGE[0]) for b in t[1]]
+                found = False
+                for vals in itertools.product(*doms):
+                    new = dict(loc)
+                    new.update(zip(names, vals))
+                    v = eval_term(t[2], env, new)
+                    if v != (h == 'forall'):
+                        found = True
+                        break
+                return (not found) if h == 'forall' else found
+            if h in ('select', 'store'):
+                a = [eval_term(x, env, loc) for x in t[1:]]
+                k = domain(a[0][1], EVAL_INT_RANGE[0]).index(a[1])
+                if h == 'select':
+                    return a[0][2][k]
+                return ("arr", a[0][1], a[0][2][:k] + (a[2],) + a[0][2][k + 1:])
             if h == 'let':                              # parallel: values in the OUTER scope
                 new = dict(loc)
                 for b in t[1]:
@@ -661,6 +717,25 @@ def eval_term(t, env, loc=None):
         t = d.body
 
 
+# the Int range used when a quantifier or an array index ranges over Int (set by Solver / the harness)
+EVAL_INT_RANGE = [8]
+
+
+def set_int_range(n):
+    EVAL_INT_RANGE[0] = n
+
+
+def _struct_sort(x):
+    """Sort s-expression -> representation, structurally (the term was sort-checked before)."""
+    if isinstance(x, list):
+        if len(x) == 3 and x[0] == '_':
+            return ('BV', int(x[2]))
+        if len(x) == 3 and type(x[0]) is str and x[0] == 'Array':
+            return ('Array', _struct_sort(x[1]), _struct_sort(x[2]))
+        return ('U', '(%s %s)' % (x[0], ' '.join(show_sort(_struct_sort(y)) for y in x[1:])))
+    return str(x) if x in ('Bool', 'Int') and not isinstance(x, Sym) else ('U', str(x))
+
+
 def show_value(v):
     if v is True or v is False:
         return 'true' if v else 'false'
@@ -668,6 +743,8 @@ def show_value(v):
         return str(v) if v >= 0 else '(- %d)' % -v
     if v[0] == 'bv':
         return '#b' + format(v[2], '0%db' % v[1])
+    if v[0] == 'arr':
+        return '(array %s)' % ' '.join(show_value(x) for x in v[2])     # not SMT-LIB: never parsed back
     return '(as %s %s)' % (_show_atom(Sym('@%s_%d' % (v[1], v[2]))), show_sort(('U', v[1])))
 
 
@@ -695,6 +772,9 @@ def domain(sort, int_range):
         return list(range(-int_range, int_range + 1))
     if sort[0] == 'BV':
         return [("bv", sort[1], i) for i in range(1 << sort[1])]
+    if sort[0] == 'Array':
+        n = len(domain(sort[1], int_range))
+        return [("arr", sort[1], vs) for vs in itertools.product(domain(sort[2], int_range), repeat=n)]
     return [("u", sort[1], 0), ("u", sort[1], 1)]
 
 
@@ -719,6 +799,7 @@ def _err(msg):
 class Solver:
     def __init__(self, int_range=8):
         self.int_range = int_range
+        set_int_range(int_range)
         self.reset()
 
     def reset(self):
